@@ -864,6 +864,39 @@ def w_all(ctx, f, tag="", files=SER_FILES, floor=20):
 
 
 
+def raw_writer_rule(ctx, f, tag=""):
+    """COUNT:raw-writer (added after seeded change C01): bytes must reach the underlying writer only through the
+    counting `impl Write for SerializerCommon` — padding of every later field and every back-patched length are
+    computed from `bytes_written`. The inner `.writer` field may be used directly only by that impl itself
+    (write/flush) and by the back-patch of `end_seq`, which seeks back, overwrites the length and seeks forward again
+    (net position change 0; P-PATCH decides that shape)."""
+    allowed = {
+        "<zvariant::ser::SerializerCommon<'_, W> as std::io::Write>::write": "the counting write itself",
+        "<zvariant::ser::SerializerCommon<'_, W> as std::io::Write>::flush": "flush",
+        "zvariant::dbus::ser::SeqSerializer::<'_, '_, W>::end_seq": "back-patch: seek / write_u32 / seek (P-PATCH)",
+    }
+    n = 0
+    for b in f.all_bodies("zvariant"):
+        for c in mir.calls(b):
+            if not c.args:
+                continue
+            o = mir.origin(b, c.args[0])
+            if o[0] not in ("place", "ref"):
+                continue
+            pr = [p for p in o[1][1] if isinstance(p, list) and p[0] == "." and p[2] == "writer" and p[3] == lc.SER_COMMON]
+            if not pr:
+                continue
+            n += 1
+            ok = b.root in allowed
+            if ok and b.root.endswith("end_seq") and c.callee.rsplit("::", 1)[-1] not in ("seek", "write_u32", "stream_position"):
+                ok = False
+            ctx.ob("COUNT", tag + "raw-writer:%s:%s" % (lc.short(b), c.callee.rsplit("::", 1)[-1]), ok,
+                   allowed.get(b.root, "") if ok else
+                   "%s is called on the inner `.writer` directly: the bytes are emitted but `bytes_written` does not advance, so later padding, "
+                   "array lengths and the reported size are computed from a stale position" % c.callee, c.where)
+    ctx.floor("COUNT", tag + "direct uses of SerializerCommon.writer", n, 3)
+
+
 def run(ctx):
     ctx.explanation = ("R-TABLE/R-ORDER/R-WHO rules over the MIR of zvariant's D-Bus serializer (K1, plus K2 for the "
                        "who-writes rules): alignment table and constants vs the transcribed D-Bus marshalling table, per-type "
@@ -885,10 +918,12 @@ def run(ctx):
     p_patch(ctx, f)
     size_rule(ctx, f)
     count_rule(ctx, f)
+    raw_writer_rule(ctx, f)
     fd_rule(ctx, f)
     w_all(ctx, f)
     f2 = ctx.facts("K2")
     t_align(ctx, f2, spec, "K2:")
     size_rule(ctx, f2, "K2:")
     count_rule(ctx, f2, "K2:")
+    raw_writer_rule(ctx, f2, "K2:")
     w_all(ctx, f2, "K2:", files=GV_FILES, floor=8)
